@@ -44,6 +44,9 @@ type Check struct {
 	MaxWorkers int
 	// WorkersPerCPU - >1 for latency-bound workloads (DAG runs wait for scheduler ticks)
 	WorkersPerCPU int
+	// MemLimitMB - address-space limit of a worker process (0 = none): an input that makes the library allocate without
+	// bound ends the worker with a runtime-fatal error that the coordinator attributes to the journalled case.
+	MemLimitMB int
 	// PerCaseTimeoutS - watchdog for one case (0 = default 60s)
 	PerCaseTimeoutS int
 	// Post - optional extra work done by the coordinator after the workers (e.g. fuzzing); may add to the aggregate.
